@@ -139,7 +139,7 @@ PLANS['C07'] = dict(
 PLANS['C08'] = dict(
     engine='registry', level='exploration', jobs=lambda tier: both(tier, (16, 600), (16, 6000)),
     minimums=lambda t: {'evaluations': 20000, 'valueerror_probes': 3000, 'keys_with_2plus_names': 50,
-                        'subscriber_calls_checked': 200, 'super_proxy_keys': 20},
+                        'subscriber_calls_checked': 200, 'super_proxy_keys': 20, 'subscriber_results_falsy_not_none': 100},
     rule='For a registry state and key, all nine entry points are called in a seeded order (each observed cold, '
          'warm-by-itself, warm-by-another) and compared with lookup()/subscriptions() of the same registry; recording '
          'factories check arguments (super proxies unwrapped) and None results; non-string names must raise ValueError.  '
